@@ -501,7 +501,14 @@ Definition check_query (m : mesh) (ws : wspec) (q : query) (o : obs) : bool :=
       end
   end.
 
+(* The accumulator. `distance[start]` is initialised with a FLOAT literal in both functions, so every `distance[v] + w`
+   is a floating-point addition whatever numeric type the caller's weights have (Python int/float/bool, numpy signed or
+   unsigned integers of any width, np.float64: binary64, exact while the sums stay below 2^53; np.float32: binary32,
+   exact below 2^24). With an int literal, numpy integer weights would be summed in their own fixed width and wrap.
+   The model adds exactly (Z): it describes the code only while this flag holds and the sums are within those bounds. *)
+Definition acc_float : bool := sp_init_dist_float && set_init_dist_float.
+
 (* one case: a mesh, a weight mode, and a list of queries with the implementation's answers *)
 Definition check_case (c : mesh * wspec * list (query * obs)) : bool :=
   let '(m, ws, qs) := c in
-  mesh_ok m ws && forallb (fun qo => check_query m ws (fst qo) (snd qo)) qs.
+  acc_float && mesh_ok m ws && forallb (fun qo => check_query m ws (fst qo) (snd qo)) qs.
